@@ -549,7 +549,7 @@ def request_words(decl: dict, case: dict, settings: Dict[str, Any], tails: List[
             else:
                 tail = tails[k]
                 k += 1
-            w += w_toks(tail[0]) + ["1" if tail[1] else "0"]
+            w += [str(len(tail[0]))] + [str(int(x)) for x in tail[0]] + ["1" if tail[1] else "0"]
             for a, b in WIRE_KEYS:
                 w += [str(a), str(b)] + w_toks(tail[2][f"{a}-{b}"])
             for ed in o["edges"]:
@@ -661,7 +661,7 @@ class C06(core.Check):
         tails = []
         for b in mesh.block_list.blocks:
             wires = {f"{c1}-{c2}": tokenize(b.wires[c1][c2].grading.description) for c1, c2 in WIRE_KEYS}
-            tails.append([[str(a.count) for a in b.axes], all(a.is_simple for a in b.axes), wires])
+            tails.append([[int(a.count) for a in b.axes], all(a.is_simple for a in b.axes), wires])
         settings = {k: v for k, v in mesh.settings.items()}
         obs = {
             "decl": decl,
@@ -871,7 +871,7 @@ class C06(core.Check):
                 want_tail = impl["tails"][k] if k < len(impl["tails"]) else None
                 if want_tail is not None:
                     wires = want_tail[2]
-                    if counts != want_tail[0]:
+                    if counts != [str(n) for n in want_tail[0]]:
                         bad("Block.description:counts", f"block {k}: file {counts}, block object {want_tail[0]}")
                     if gk == "edgeGrading":
                         # blockMesh applies the twelve entries to the edges 0-1, 3-2, 7-6, 4-5, 0-3, ... in this order
